@@ -121,6 +121,7 @@ PURE_EXTERNAL = {
     "copy.copy": lambda x: x.copy() if hasattr(x, "copy") else x,
     "unicodedata.category": unicodedata.category,
     "json.loads": lambda s_, *a, **k: __import__("json").loads(s_),
+    "time.perf_counter": lambda: 0.0, "time.monotonic": lambda: 0.0, "time.time": lambda: 0.0, "time.process_time": lambda: 0.0,
     "fnmatch.filter": lambda names, pat: __import__("fnmatch").filter(list(names), pat),
     "fnmatch.fnmatch": lambda n, pat: __import__("fnmatch").fnmatch(n, pat),
     "fnmatch.fnmatchcase": lambda n, pat: __import__("fnmatch").fnmatchcase(n, pat),
@@ -301,8 +302,12 @@ class PureInterp:
             for item in st.items:
                 v = self.eval(item.context_expr, env, module, depth)
                 opened.append(v)
+                bound = v
+                enter = self._dunder(v, "__enter__")
+                if enter is not None:
+                    bound = self.call(enter, (), {}, self_obj=v, depth=depth + 1)
                 if item.optional_vars is not None:
-                    self.assign(item.optional_vars, v, env, module, depth)
+                    self.assign(item.optional_vars, bound, env, module, depth)
             try:
                 try:
                     self.block(st.body, env, module, depth)
@@ -691,7 +696,8 @@ class PureInterp:
             except (Unsupported, Raised):
                 pass
             return self.hooks["attr:" + n.func.attr](recv, *args, **kwargs)
-        if isinstance(n.func, ast.Attribute) and dotted(n.func.value) in ("logger", "logging", "log") and dotted(n.func.value) not in env:
+        if isinstance(n.func, ast.Attribute) and dotted(n.func.value) in ("logger", "logging", "log") and dotted(n.func.value) not in env \
+                and n.func.attr in ("debug", "info", "warning", "warn", "error", "exception", "critical", "log"):
             self.events.append(("log", n.func.attr, tuple(args)))
             return None
         f = self.eval(n.func, env, module, depth)
@@ -772,6 +778,10 @@ class PureInterp:
                         return fn(*args, **kwargs)
                     except (ValueError, TypeError) as exc:
                         raise Raised(type(exc).__name__, str(exc))
+            if name in ("logging.getLogger", "logging.getLoggerClass"):
+                ev_ = self.events
+                mk = lambda lvl: (lambda *a, **k: ev_.append(("log", lvl, a)))
+                return Obj("opaque:logger", **{lvl: mk(lvl) for lvl in ("debug", "info", "warning", "error", "exception", "critical", "log")})
             if name == "functools.partial":
                 return ("partial", args[0], tuple(args[1:]), dict(kwargs))
             if name in ("functools.lru_cache", "functools.cache"):
